@@ -185,6 +185,13 @@ Ltac f_leaf :=
   unfold invF, should_exit in *; bproj;
   repeat match goal with H : b_sock ?x = _ |- _ => rewrite H in *; clear H end;
   repeat (f_obs; bproj);
+  (* the defining equations of the intermediate states are used up: substitute them everywhere *)
+  repeat match goal with
+  | H : b_acted ?x = _ |- _ => is_var x; try rewrite H in *; clear H
+  | H : b_term ?x = _ |- _ => is_var x; try rewrite H in *; clear H
+  | H : disc_like (b_cs ?x) = _ |- _ => is_var x; try rewrite H in *; clear H
+  | H : is_async (b_cs ?x) = _ |- _ => is_var x; try rewrite H in *; clear H
+  end;
   cbn [is_pending is_nosock is_afterwait is_first_or_inner disc_like is_async andb orb negb xorb] in *;
   clear_junk;
   repeat match goal with c : bst |- _ => lazymatch goal with H : negb (is_async (b_cs c)) || negb (disc_like (b_cs c)) = true |- _ => fail | _ => pose proof (async_not_disc (b_cs c)) end end;
